@@ -201,7 +201,8 @@ Apply(st, ev) ==
     [] ev.op = "mutate" -> Mutate(st, ev.T, ev.a, ev.p)
     [] ev.op = "import" -> ImportM(st, ev.m)
     [] ev.op = "calc"   -> Calc(st, ev.c)
-    [] ev.op \in {"parse", "pickle"} -> st          \* parsing with table=T / pickling an atom touch no lazy property
+    [] ev.op \in {"parse", "pickle", "tcalc"} -> st \* parsing with table=T / pickling an atom touch no lazy property; tcalc: calculators
+                                                     \* with table=T, used by the harness only after T's groups were initialised
 
 \* predicted outcome class of an event (what the harness logs as out.cls)
 Outcome(st, ev) ==
